@@ -875,9 +875,12 @@ def verify_directory_hash_subcommand(
 
                         if dir_content_hash:
                             found_hash_format = True
-                            _compare_and_log_directory_hashes(
+                            num_current_successful_verifications = _compare_and_log_directory_hashes(
                                 ".", root_hash_entry, dir_content_hash, dir_structure_hash
                             )
+                            if num_current_successful_verifications == 1:
+                                num_failed_verifications += 1
+                                add_detected_failure_for_format(hash_format)
 
                         if not calculate_only:
                             if not found_hash_format:
